@@ -293,12 +293,33 @@ func (c *Ctx) arraySnapshot(st *State, ref *Term, t types.Type) *Val {
 		c.sc.assert(tEq(n, c.mkSlice(es, elems)))
 		return scalar(n, t)
 	}
-	n := c.sc.freshConst("arrv", SSl)
-	c.sc.assert(tEq(tApp(SInt, "slen", n), intLit(a.Len())))
-	{
-		c.sc.assert(mk(SBool, "(forall ((i Int)) (! (=> (and (<= 0 i) (< i %d)) (= (%s %s i) (select %s i))) :pattern ((%s %s i))))", a.Len(), at, n.S, contents.S, at, n.S))
-	}
-	return scalar(n, t)
+	_ = at
+	return scalar(c.arr2sl(contents, a.Len(), es), t)
+}
+
+// arr2sl: the slice view of the first n elements of an array's contents, as a function of the contents.
+func (c *Ctx) arr2sl(contents *Term, n int64, es Sort) *Term {
+	at := atFun(c, es)
+	fn := "arr2sl_" + sortName(es)
+	c.sc.declareFun(fn, []Sort{ArrSort(SInt, es), SInt}, SSl)
+	c.sc.axiomOnce(fmt.Sprintf("(forall ((a %s) (n Int)) (! (=> (>= n 0) (= (slen (%s a n)) n)) :pattern ((%s a n))))", ArrSort(SInt, es), fn, fn))
+	c.sc.axiomOnce(fmt.Sprintf("(forall ((a %s) (n Int) (i Int)) (! (=> (and (<= 0 i) (< i n)) (= (%s (%s a n) i) (select a i))) :pattern ((%s (%s a n) i))))", ArrSort(SInt, es), at, fn, at, fn))
+	return tApp(SSl, fn, contents, intLit(n))
+}
+
+// zeroArr is the constant array of zero values.
+func (c *Ctx) zeroArr(es Sort) *Term {
+	return mk(ArrSort(SInt, es), "((as const %s) %s)", ArrSort(SInt, es), c.zeroTerm(es).S)
+}
+
+// copyInto: contents after copy(dst[:], src) into an array of n elements.
+func (c *Ctx) copyInto(old, src *Term, n int64, es Sort) *Term {
+	at := atFun(c, es)
+	fn := "copyinto_" + sortName(es)
+	as := ArrSort(SInt, es)
+	c.sc.declareFun(fn, []Sort{as, SSl, SInt}, as)
+	c.sc.axiomOnce(fmt.Sprintf("(forall ((a %s) (s Sl) (n Int) (i Int)) (! (= (select (%s a s n) i) (ite (and (<= 0 i) (< i n) (< i (slen s))) (%s s i) (select a i))) :pattern ((select (%s a s n) i))))", as, fn, at, fn))
+	return tApp(as, fn, old, src, intLit(n))
 }
 
 func (c *Ctx) arrayStoreAll(st *State, ref *Term, t types.Type, v *Val) {
